@@ -126,8 +126,9 @@ def _overlay_facts(src, notes):
                 elif tgt == "shape_e":
                     pastes.append((n.lineno, f"{tgt} = {_unparse(n.value)}"))
                 elif tgt == "opacity":
+                    pastes.append((n.lineno, f"{tgt} = {_unparse(n.value)}"))
                     try:
-                        scale = _opacity_scale(n.value, ["effect"])
+                        scale = _opacity_scale(n.value, ["effect", "layer"])
                     except Exception as e:  # noqa
                         notes.append(f"{name}: opacity expression {_unparse(n.value)} cannot be evaluated ({type(e).__name__})")
         out.append((name, key, args, [p for _, p in sorted(pastes)], scale))
